@@ -56,6 +56,27 @@ def rule_label(ctx):
            "with_timeout no longer bounds the call by the named timeout attribute of the instance (or retries / swallows the timeout)", construct="with_timeout:timeout source")
 
 
+def rule_raw(ctx):
+    p = ctx.p
+    ctx.rule("C16.RAW", "the stream wrappers touch the raw reader / writer only under a timeout: in StreamIO and its subclasses every awaited call on `self.reader` / `self.writer` "
+                        "sits in a method decorated with with_timeout - a subclass that drains the writer itself is not bounded by socket_timeout")
+    classes = [c for c in p.classes if c == "StreamIO" or "StreamIO" in p.mro(c)]
+    n = 0
+    for cn in sorted(classes):
+        for name, fn in p.methods(cn).items():
+            for fx in [fn] + p.nested_functions(fn):
+                for a in walk_no_nested(fx):
+                    if isinstance(a, ast.Await) and isinstance(a.value, ast.Call) and isinstance(a.value.func, ast.Attribute):
+                        recv = expand(p, a.value.func.value, fx)
+                        if src(recv) in ("self.reader", "self.writer"):
+                            n += 1
+                            bounded = any(d.name == "with_timeout" for d in p.decorators(fn))
+                            ctx.ob("C16.RAW", a, f"{cn}.{name}: `{src(a)[:50]}` runs under with_timeout", bounded,
+                                   f"{cn}.{name} awaits `{src(a.value)[:50]}` on the raw stream outside any with_timeout method: a peer that stops "
+                                   "reading / sending holds this call (and the session's resources) without limit", construct=f"raw:{cn}.{name}:{a.value.func.attr}")
+    ctx.floor("C16.RAW", 4, "awaited raw stream calls")
+
+
 def _anc(p, n, stop=None):
     q = p.parent.get(n)
     while q is not None and q is not stop:
@@ -314,4 +335,4 @@ def rule_pathio_timeout(ctx):
         ctx.floor_errors.append(f"rule=C16.PATHIO: {n} executor-backend operations (floor 12)")
 
 
-RULES = [rule_label, rule_wire, rule_wait, rule_end, rule_cleanup, rule_support, rule_pathio_timeout]
+RULES = [rule_label, rule_raw, rule_wire, rule_wait, rule_end, rule_cleanup, rule_support, rule_pathio_timeout]
